@@ -76,7 +76,25 @@ func genValidDots(t *rapid.T) []piecefunc.Dot {
 		n = rapid.IntRange(7, 70).Draw(t, "ndotsLong")
 	}
 	var xs []uint64
-	if rapid.IntRange(0, 3).Draw(t, "xmode") == 0 {
+	xmode := rapid.IntRange(0, 4).Draw(t, "xmode")
+	if xmode == 4 {
+		// neighbours exactly a power of two apart (2^0 .. 2^43)
+		x := rapid.Uint64Range(0, 1000).Draw(t, "x0pow")
+		for i := 0; i < n; i++ {
+			xs = append(xs, x)
+			k := rapid.IntRange(0, 43).Draw(t, "gapLog2")
+			for x+(uint64(1)<<uint(k)) > maxVal-uint64(n) && k > 0 {
+				k--
+			}
+			x += uint64(1) << uint(k)
+		}
+		if xs[n-1] > maxVal {
+			xs = xs[:0]
+			for i := 0; i < n; i++ {
+				xs = append(xs, uint64(i)*2)
+			}
+		}
+	} else if xmode == 0 {
 		// a run of close neighbours starting at a drawn coordinate
 		x := genCoord().Draw(t, "x0")
 		if x > maxVal-uint64(n)*1000 {
@@ -174,6 +192,16 @@ func tryNewFunc(dots []piecefunc.Dot) (f func(uint64) uint64, panicked interface
 	return piecefunc.NewFunc(cp), nil
 }
 
+// tryNewFuncShared passes the caller's slice itself (no copy).
+func tryNewFuncShared(dots []piecefunc.Dot) (f func(uint64) uint64, panicked interface{}) {
+	defer func() {
+		if r := recover(); r != nil {
+			f, panicked = nil, r
+		}
+	}()
+	return piecefunc.NewFunc(dots), nil
+}
+
 func tryGet(f func(uint64) uint64, x uint64) (y uint64, panicked interface{}) {
 	defer func() {
 		if r := recover(); r != nil {
@@ -258,7 +286,25 @@ func propC31(t *rapid.T) {
 		st.Sample(func() interface{} { return map[string]interface{}{"kind": kind, "dots": fmt.Sprint(bad)} })
 		return
 	}
-	f, p := tryNewFunc(dots)
+	// the caller's table is a longer array of which the dot list is a part (spare capacity behind it); a second function
+	// is made from a shorter part of the same table. Neither call may change the table, or the other function.
+	table := make([]piecefunc.Dot, len(dots)+2, len(dots)+4)
+	copy(table, dots)
+	table[len(dots)] = piecefunc.Dot{X: 1, Y: 2}
+	table[len(dots)+1] = piecefunc.Dot{X: 3, Y: 4}
+	tableBefore := append([]piecefunc.Dot{}, table[:cap(table)]...)
+	f, p := tryNewFuncShared(table[:len(dots)])
+	if p == nil && len(dots) >= 3 {
+		k := rapid.IntRange(2, len(dots)-1).Draw(t, "secondFunctionDots")
+		if _, p2 := tryNewFuncShared(table[:k]); p2 != nil {
+			t.Fatalf("NewFunc panicked (%v) on the first %d dots of the valid list %v", p2, k, dots)
+		}
+	}
+	for i, d := range table[:cap(table)] {
+		if d != tableBefore[i] {
+			t.Fatalf("NewFunc changed the caller's table: element %d is %v, was %v (dots %v)", i, d, tableBefore[i], dots)
+		}
+	}
 	if p != nil {
 		t.Fatalf("NewFunc panicked (%v) on a valid dot list: %v", p, dots)
 	}
